@@ -16,6 +16,7 @@ import (
 // by the single running task of a simulated run or by the harness between
 // runs; there is never real concurrency on a Disk.
 type Disk struct {
+	MtimeGranularity int64 // ns; 0 = 4ms
 	root    *inode
 	Cwd     string
 	UID     int
@@ -282,7 +283,16 @@ func (d *Disk) walk(p string) (dir *inode, name string, n *inode, err error) {
 
 func (d *Disk) touch(p string) { d.Journal = append(d.Journal, d.abs(p)) }
 
-func (d *Disk) now() int64 { return verifsim.Now().UnixNano() }
+// now is the time stamp the file system puts on a modification: the clock at the granularity of the
+// file system (kernels stamp with a coarse clock, a few milliseconds; some file systems keep seconds).
+func (d *Disk) now() int64 {
+	t := verifsim.Now().UnixNano()
+	g := d.MtimeGranularity
+	if g <= 0 {
+		g = 4000000
+	}
+	return t - t%g
+}
 
 // ---- syscalls ----
 
@@ -719,6 +729,31 @@ func (d *Disk) PutDir(p string, mode fs.FileMode, uid int) {
 	}
 }
 
+// RemoveTree removes a file or a whole directory tree directly (somebody else cleaned up).
+func (d *Disk) RemoveTree(p string) bool {
+	ap := d.abs(p)
+	if ap == "/" {
+		return false
+	}
+	parts := strings.Split(strings.TrimPrefix(strings.TrimSuffix(ap, "/"), "/"), "/")
+	cur := d.root
+	for i, part := range parts {
+		if !cur.dir {
+			return false
+		}
+		next := cur.entries[part]
+		if next == nil {
+			return false
+		}
+		if i == len(parts)-1 {
+			delete(cur.entries, part)
+			return true
+		}
+		cur = next
+	}
+	return false
+}
+
 // ReplaceWithDir turns an existing file into an (empty) directory of the same name, directly (at-rest damage).
 func (d *Disk) ReplaceWithDir(p string, uid int) bool {
 	ap := d.abs(p)
@@ -845,6 +880,7 @@ func (d *Disk) Tree() []TreeEntry {
 func (d *Disk) Clone() *Disk {
 	c := NewDisk(d.UID)
 	c.Cwd, c.Umask, c.nextIno = d.Cwd, d.Umask, d.nextIno
+	c.MtimeGranularity = d.MtimeGranularity
 	seen := map[*inode]*inode{}
 	var cp func(n *inode) *inode
 	cp = func(n *inode) *inode {
